@@ -56,7 +56,7 @@ Record rcase := mkRCase {
   rc_cfg : list entry;
   rc_res : rtable;
   rc_added : list addr;                   (* AddAddress calls, in order *)
-  rc_reach : list (list str)              (* per listened address: services that received a probe *)
+  rc_probes : list (addr * list str)      (* probe connections: concrete local address -> services that received it *)
 }.
 
 Definition SIG_LISTENED := 4%N.    (* set/order of listened addresses differs *)
@@ -68,7 +68,7 @@ Definition same_set (a b : list str) : bool :=
 Definition rcase_sig (c : rcase) : N :=
   let t := build (resolve_of (rc_res c)) (rc_defined c) (rc_cfg c) in
   if negb (list_eqb addr_eqb (map fst t) (rc_added c)) then SIG_LISTENED
-  else if negb (list_eqb same_set (map snd t) (rc_reach c)) then SIG_REACH
+  else if negb (forallb (fun pr => same_set (concat (candidates t (fst pr))) (snd pr)) (rc_probes c)) then SIG_REACH
   else 0%N.
 
 Inductive case := CA (c : acase) | CR (c : rcase).
